@@ -2,6 +2,7 @@
    checks. ExtrOcamlBasic only: bool/option/list/prod/unit/sumbool map to OCaml's;
    nat, positive, N, Z stay inductive. No Extract Constant / Extract Inductive of our own. *)
 Require Import KV.Base KV.ConfigModel KV.EstimatorModel KV.GhostModel KV.HtableModel KV.CacheModel KV.HttpModel KV.HttpTrie KV.LinCheck KV.KeyHash KV.HtableLts KV.QueueLts KV.QueueStream KV.IndexLts KV.ReadBufferStream KV.NotifierStream KV.CallbackStream KV.RegistryStream KV.StripedCounterStream KV.PtrModel.
+Require KV.AliasModel.
 Require Import ExtrOcamlBasic.
 
 (* arithmetic the driver needs for decimal <-> Z conversion *)
@@ -29,6 +30,7 @@ Definition run_stream (sid : Z) (cfg : list Z) (ops : list (list Z)) : list (lis
   else if sid =? 75 then run_out rb_step (rb_init cfg) ops
   else if sid =? 151 then run_out ix_step (ix_init cfg) ops
   else if sid =? 42 then run_out qc_step (ql_init cfg) ops
+  else if sid =? 91 then run_out AliasModel.al_step (AliasModel.al_init cfg) ops
   else if sid =? 171 then run_out rgl_step (rgl_init cfg) ops
   else if sid =? 81 then run_out pl_step (pl_of_cfg cfg) ops
   else if sid =? 191 then run_out ghost_step (ghost_init cfg) ops
